@@ -34,7 +34,7 @@ pub fn make(name: &str, variant: &str) -> Option<Box<dyn Engine>> {
         "registry" => Some(Box::new(registry::Registry::default())),
         "weight" => Some(Box::new(weight::Weight::default())),
         "incentive" => Some(Box::new(incentive::Incentive::default())),
-        "pair" => Some(Box::new(pair::PairEngine::default())),
+        "pair" => Some(Box::new(pair::PairEngine::new(variant))),
         _ => None,
     }
 }
